@@ -247,9 +247,32 @@ pub struct SubFileSizes {
 
 impl SubFileSizes {
     /// Calculate the valid value of lf, given all of the other fields.
+    ///
+    /// Panics if the value does not fit in 16 bits; see [`SubFileSizes::checked_valid_lf`].
     pub fn valid_lf(&self) -> i16 {
+        self.checked_valid_lf()
+            .expect("the sub-file sizes add up to at most i16::MAX words")
+    }
+
+    /// Calculate the valid value of lf, given all of the other fields,
+    /// or return `None` if that value does not fit in 16 bits.
+    ///
+    /// The sum is calculated with 32 bits because the fields of a corrupt
+    /// .tfm file can add up to more than `i16::MAX`.
+    pub fn checked_valid_lf(&self) -> Option<i16> {
         let s = self;
-        6 + s.lh + (s.ec - s.bc + 1) + s.nw + s.nh + s.nd + s.ni + s.nl + s.nk + s.ne + s.np
+        let lf: i32 = 6
+            + i32::from(s.lh)
+            + (i32::from(s.ec) - i32::from(s.bc) + 1)
+            + i32::from(s.nw)
+            + i32::from(s.nh)
+            + i32::from(s.nd)
+            + i32::from(s.ni)
+            + i32::from(s.nl)
+            + i32::from(s.nk)
+            + i32::from(s.ne)
+            + i32::from(s.np);
+        lf.try_into().ok()
     }
 }
 
@@ -446,7 +469,7 @@ impl<'a> RawFile<'a> {
                 warnings,
             );
         }
-        if s.lf != s.valid_lf() {
+        if Some(s.lf) != s.checked_valid_lf() {
             return (
                 Err(DeserializationError::InconsistentSubFileSizes(s.clone())),
                 warnings,
